@@ -262,7 +262,7 @@ def finish(prop, results, not_run, opts, meta, t0, tier, seed):
         print(f"  scenario={it['scenario']} label={it['label']} replay={it['replay']}")
         code = 1
     for he in harness_errors[:10]:
-        print(f"HARNESS-ERROR property={prop} scenario={he['scenario']}\n  {he['error'][:2000]}")
+        print(f"HARNESS-ERROR property={prop} scenario={he['scenario']}\n  {he['error'][-2500:]}")
     for inc in inconclusive[:10]:
         print(f"INCONCLUSIVE property={prop} scenario={inc['scenario']} label={inc['label']}")
     if not_run:
